@@ -109,6 +109,12 @@ class ChangeField(BaseModelFieldMutation):
             old_field_sig=field_sig)
 
         if self.field_type is not None:
+            if self.field_type is not field_sig.field_type:
+                # A change of field type is a hard reset of the attributes
+                # (the mutation lists every attribute of the new field),
+                # whether or not the column type differs.
+                field_type_changed = True
+
             field_sig.field_type = self.field_type
 
         new_field_attrs = self.field_attrs.copy()
